@@ -2,11 +2,20 @@ import logging
 
 from authlib.jose import jwt
 from authlib.jose.errors import JoseError
+from authlib.oauth2.base import invalid_error_characters
 
 from ..rfc6749 import InvalidClientError
 
 ASSERTION_TYPE = "urn:ietf:params:oauth:client-assertion-type:jwt-bearer"
 log = logging.getLogger(__name__)
+
+
+def _error_description(text):
+    # a JOSE error may quote attacker-chosen header names; OAuth2Error refuses
+    # descriptions outside the RFC 6749 character set
+    if text and invalid_error_characters(text):
+        return None
+    return text
 
 
 class JWTBearerClientAssertion:
@@ -70,7 +79,9 @@ class JWTBearerClientAssertion:
             claims.validate(leeway=self.leeway)
         except JoseError as e:
             log.debug("Assertion Error: %r", e)
-            raise InvalidClientError(description=e.description) from e
+            raise InvalidClientError(
+                description=_error_description(e.description)
+            ) from e
         except ValueError as e:
             # the key does not fit the algorithm named in the assertion header
             log.debug("Assertion Error: %r", e)
